@@ -288,7 +288,12 @@ class Ctx:
         self.rule = ""
         self.explanation = ""
         self.known = load_known()
-        self.escalated = False
+        self.escalated = False     # set by a part when one of its proof obligations / bridges broke
+
+    @property
+    def deep(self):
+        """full-depth search after a broken obligation (exhaustive enumerations etc.): only on request"""
+        return self.escalated and os.environ.get("VERIF_DEEP") == "1"
 
     # -- obligations --------------------------------------------------------------
     def oblige(self, kind, name, ok, detail=""):
@@ -595,6 +600,11 @@ def segment_upto(lines, i):
 
 
 def tier_n(ctx, quick, thorough):
-    if ctx.tier == "thorough" or ctx.escalated:
+    """sizes: quick / thorough; after a broken obligation in THIS part (ctx.escalated) the quick tier searches
+    deeper, but bounded (6x) so that a broken bridge does not turn a quick check into a thorough one;
+    VERIF_DEEP=1 lifts the bound (full thorough sizes + exhaustive enumerations)"""
+    if ctx.tier == "thorough" or ctx.deep:
         return thorough
+    if ctx.escalated:
+        return min(thorough, quick * 6)
     return quick
